@@ -1,4 +1,5 @@
 import NormModel.Properties.C18
 #print axioms Norm.C18.ident_body
 #print axioms Norm.C18.rename_same_length
+#print axioms Norm.C18.rename_token
 #print axioms Norm.C18.keyword_names
